@@ -392,6 +392,8 @@ def run(report, p):
     sites = [c for c, tg in p.calls[creader.qual] if appg.qual in tg]
     if not sites:
         raise AnalysisError("chain reader does not call append_generation")
+    # the variable(s) holding the open per-entry container: whatever is assigned a new MHLChainGeneration in the reader
+    conts = tuple(sorted({norm(n.targets[0]) for n in walk_no_nested(creader.node) if isinstance(n, ast.Assign) and len(n.targets) == 1 and isinstance(n.targets[0], ast.Name) and isinstance(n.value, ast.Call) and p.resolve_name_expr(n.value.func, creader.module) == "ascmhl.chain.MHLChainGeneration"})) or ("current_object",)
     for c in sites:
         r8.instance(creader, c, norm(c)[:70])
         extra = []
@@ -399,7 +401,7 @@ def run(report, p):
             if t.kind != "test":
                 continue
             tt = norm(t.ast).replace('"', "'")
-            if _dispatch_only(p, creader, t.ast):
+            if _dispatch_only(p, creader, t.ast, conts):
                 continue
             extra.append((tt, l))
         r8.check(not extra, creader, c, f"the chain reader keeps a parsed <hashlist> entry only under the additional condition {extra}: dropped entries are never verified", construct=f"chain entry kept under {extra}")
@@ -416,7 +418,8 @@ def run(report, p):
         for t, l in gr.control_deps(gr.node_for(o_), through_loops=False):
             if t.kind == "test":
                 atoms |= set(atomic_deps(t.ast, l))
-        okc = ("tag == 'hashlist'", "T") in atoms and all(a in (("tag == 'hashlist'", "T"), ("event == 'start'", "T"), ("current_object", "F"), ("current_object is None", "T"), ("event == 'end'", "F")) for a in atoms)
+        cv = norm(o_.targets[0])  # the variable that holds the open container
+        okc = ("tag == 'hashlist'", "T") in atoms and all(a in (("tag == 'hashlist'", "T"), ("event == 'start'", "T"), (cv, "F"), (f"{cv} is None", "T"), (f"{cv} is not None", "F"), ("event == 'end'", "F")) for a in atoms)
         r8.check(okc, creader, o_, f"the chain reader opens an entry container under {sorted(atoms)} instead of 'start of a <hashlist> element while none is open': entries are merged or skipped and never verified", construct=f"entry container opened under {sorted(atoms)}")
     nmod = 0
     for fq, f in p.funcs.items():
@@ -488,7 +491,7 @@ def run(report, p):
     report.not_decided += ["that every byte edit changes the c4 digest (trusted)", "behaviour on chain files not produced by the tool", "concrete exit codes observed at run time"]
 
 
-def _dispatch_only(p, f, test) -> bool:
+def _dispatch_only(p, f, test, containers=("current_object",)) -> bool:
     """the condition inspects only the parser state (event kind, tag name, which container is open) - never the content of the entry"""
     for n in ast.walk(test):
         if isinstance(n, ast.Attribute):
@@ -497,13 +500,13 @@ def _dispatch_only(p, f, test) -> bool:
                 base = base.value
             if isinstance(base, ast.Name) and base.id in ("element",) and n.attr != "tag":
                 return False
-            if isinstance(base, ast.Name) and base.id == "current_object":
+            if isinstance(base, ast.Name) and base.id in containers:
                 return False
         if isinstance(n, ast.Call) and norm(n.func) not in ("type", "isinstance", "len"):
             if not (isinstance(n.func, ast.Attribute) and n.func.attr in ("split", "endswith", "startswith") and "tag" in norm(n.func.value)):
                 return False
         if isinstance(n, ast.Name):
-            if n.id in ("event", "tag", "current_object", "element", "type", "isinstance", "len", "None", "True", "False"):
+            if n.id in ("event", "tag", "element", "type", "isinstance", "len", "None", "True", "False") or n.id in containers:
                 continue
             q = p.resolve_name_expr(n, f.module)
             if q in p.classes or (q or "").endswith(("supported_hashformats", "ascmhl_supported_hashformats")):
